@@ -11,14 +11,16 @@ func init() {
 		// the statement of C13 covers data races of the collection filesystem
 		RaceDeciding: []string{"sdk/go/arvados/fs_", "sdk/go/arvados/throttle.go", "sdk/go/arvados/contextgroup.go"},
 		Rule: "case = one collection filesystem (maxBlockSize 1-16) used by 2-8 workers, each running a PRNG-generated stream of create/open/write/append/overwrite/seek/read/truncate/rename/remove/stat/readdir operations on its own files in a private directory tree and in shared directories, " +
-			"plus 1-3 shared files read/written/truncated by 2-3 workers through separate handles, plus Flush(\"\"), Flush(dir), MarshalManifest and Sync callers; every Keep write (PutB) parks at a controller that picks completion order, delay in events, failure or hold. " +
-			"Oracles: C-1 every read/stat/final content of an own file equals an exact sequential byte-array model; C-2 the call/return history of each shared file is linearizable (porcupine); C-3 every saved manifest reloads over the stub (which serves acknowledged blocks only) and every own file in it holds a content it had between the last state known before the save and the state after it; " +
+			"plus 1-3 shared files read/written/truncated by 2-3 workers through separate handles, " +
+			"plus 1-4 directories that do not exist at the start and that 2..all workers create at the same point of their streams (rendezvous, then Mkdir of every path component, 'exists' accepted, then create+write+close of an own file in it; the directory then is one more shared directory of the stream), plus Flush(\"\"), Flush(dir), MarshalManifest and Sync callers; every Keep write (PutB) parks at a controller that picks completion order, delay in events, failure or hold. " +
+			"Oracles: C-1 every read/stat/final content of an own file equals an exact sequential byte-array model (this includes: a file whose create+write+close returned no error is in the final tree with its content, whoever else made its directory at the same time); C-2 the call/return history of each shared file is linearizable (porcupine); C-3 every saved manifest reloads over the stub (which serves acknowledged blocks only) and every own file in it holds a content it had between the last state known before the save and the state after it; " +
 			"C-4 no 30 s without any progress while no Keep write is parked; C-5 no race-detector report with an access stack in fs_*.go/throttle.go/contextgroup.go. " +
-			"non-trivial = at least one Keep write was parked and at least one manifest reloaded; distinct = distinct (workers, block size, fault mode, shared files, stall period, reordering seen, failures seen, overlap class) tuples",
+			"non-trivial = at least one Keep write was parked and at least one manifest reloaded; distinct = distinct (workers, block size, fault mode, shared files, stall period, reordering seen, failures seen, overlap class, overlapping Mkdir calls of one directory seen) tuples",
 		Assume: []string{
 			"the Keep stub stands for Keep: content-addressed, serves a block only after acknowledging its write, a failed write stores nothing",
 			"the 5-20 ms 'no worker event' rule only steers which parked Keep write completes next; no verdict uses it",
 			"deadlock verdict: zero progress events (operations, Keep write arrivals/completions) for 30 s while no Keep write is parked; shorter stalls are never judged",
+			"the rendezvous before a concurrent Mkdir (2 s bound, then a short spin) only steers the workers to the same instant; a Mkdir returning nil to several workers is counted, not judged",
 			"interleavings are those the Go scheduler and the controller produced in this run; the evidence lists how many overlapping operation pairs, reordered and failed Keep writes were actually seen",
 		},
 	})
